@@ -129,4 +129,258 @@ theorem history_tinv (o : Opts) (hw : 0 < o.maxWanted) (hd : 0 < o.maxDiscovered
 theorem history_state (o : Opts) (ops : List Op) : (history o ops).1 = run (init o) ops :=
   runBoth_fst _ _ _
 
+/-! ## bursts of deliveries after a lookup -/
+
+/-- a burst of pubsub deliveries -/
+def feeds (s : State) : List (Progress × Int × Option Msg) → State
+  | [] => s
+  | x :: r => feeds (feed s x.1 x.2.1 x.2.2).1 r
+
+theorem feed_keeps (s : State) (p : Progress) (now : Int) (m : Option Msg) (i : Nat) (K : Key) :
+    (W (feed s p now m).1 i).peek K = (W s i).peek K ∨
+    ((W s i).peek K = some .placeholder ∧ (W (feed s p now m).1 i).peek K = some (.chain K)) := by
+  rcases feed_W s p now m i with e | ⟨msg, _, _, _, e⟩
+  · left; rw [e]
+  · rw [e]; exact discFold_w_peek _ _ _ K
+
+theorem feeds_keep (s : State) (fs : List (Progress × Int × Option Msg)) (i : Nat) (K : Key) :
+    (W (feeds s fs) i).peek K = (W s i).peek K ∨
+    ((W s i).peek K = some .placeholder ∧ (W (feeds s fs) i).peek K = some (.chain K)) := by
+  induction fs generalizing s with
+  | nil => left; rfl
+  | cons x r ih =>
+    simp only [feeds]
+    rcases feed_keeps s x.1 x.2.1 x.2.2 i K with h1 | ⟨h1, h2⟩
+    · rcases ih (feed s x.1 x.2.1 x.2.2).1 with h3 | ⟨h3, h4⟩
+      · left; rw [h3, h1]
+      · right; exact ⟨by rw [← h1]; exact h3, h4⟩
+    · rcases ih (feed s x.1 x.2.1 x.2.2).1 with h3 | ⟨h3, _⟩
+      · right; exact ⟨h1, by rw [h3]; exact h2⟩
+      · rw [h2] at h3; cases h3
+
+theorem feed_fills (s : State) (p : Progress) (now : Int) (msg : Msg)
+    (hacc : (feed s p now (some msg)).2 = .accept) (q : Key) (hq : q ∈ prefixes (chainIds msg.chain))
+    (hp : (W s msg.inst).peek q = some .placeholder) :
+    (W (feed s p now (some msg)).1 msg.inst).peek q = some (.chain q) := by
+  rcases feed_cases s p now (some msg) with ⟨msg', hm, _, e⟩ | ⟨_, e2⟩
+  · cases hm
+    obtain ⟨_, hW, _⟩ := cacheAsDiscovered_local s msg.inst (chainIds msg.chain)
+    rw [e]; show (W (cacheAsDiscovered s msg.inst (chainIds msg.chain)) msg.inst).peek q = _
+    rw [hW msg.inst]; simp only [if_true]
+    exact discFold_fills _ _ _ hq hp
+  · exact absurd (e2 hacc) (by simp)
+
+/-- after a lookup the key sits in the wanted cache, as a placeholder or with its chain -/
+theorem getChain_leaves_wanted {t : Tracker} {s : State} (h : TInv t s) (i : Nat) {K : Key} (hK : K ≠ []) :
+    (W (getChain s i K).1 i).peek K = some .placeholder ∨ (W (getChain s i K).1 i).peek K = some (.chain K) := by
+  have h' := tinv_get i K h
+  simp only [step, observe, hK, if_false] at h'
+  have hrel := h'.rel i
+  have hb := hrel.b K ⟨[], (getChain s i K).2.1.isSome⟩ (by
+    rw [onGet_eq]; simp only [setD_w, setW_w_same]; simp) (by
+    show 0 < (onGet t i K _).capW
+    rw [(onGet_frame t i K _).1]; exact h.posW)
+  have hsome := holds_peek_isSome hb.1
+  cases hp : (W (getChain s i K).1 i).peek K with
+  | none => rw [hp] at hsome; cases hsome
+  | some q =>
+    rcases hrel.wok.vals K q hp with h1 | h1
+    · left; rw [h1]
+    · right; rw [h1]
+
+/-- a chain stored in the wanted cache under `K` is what the lookup of `K` returns -/
+theorem getChain_of_wanted (s : State) (i : Nat) {K : Key} (hK : K ≠ []) {c : Chain}
+    (h : (W s i).peek K = some (.chain c)) : (getChain s i K).2.1 = some c := by
+  obtain ⟨hr, _, _⟩ := getChain_local s i hK
+  rw [hr]
+  rcases getLocal_cases (W s i) (D s i) K with ⟨c', hc, e⟩ | ⟨hnc, _⟩ | ⟨hnc, _⟩
+  · rw [e]; rw [h] at hc; cases hc; rfl
+  · exact absurd h (hnc c)
+  · exact absurd h (hnc c)
+
+theorem asked_delivered_flooded (o : Opts) (hw : 0 < o.maxWanted) (hd : 0 < o.maxDiscovered) (ops : List Op)
+    (i : Nat) (K : Key) (hK : K ≠ []) (fs₁ fs₂ : List (Progress × Int × Option Msg))
+    (p : Progress) (now : Int) (msg : Msg) (hinst : msg.inst = i) (hpre : K ∈ prefixes (chainIds msg.chain))
+    (hacc : (feed (feeds (getChain (run (init o) ops) i K).1 fs₁) p now (some msg)).2 = .accept) :
+    (getChain (feeds (feed (feeds (getChain (run (init o) ops) i K).1 fs₁) p now (some msg)).1 fs₂) i K).2.1 = some K := by
+  have hT := history_tinv o hw hd ops
+  rw [history_state] at hT
+  generalize run (init o) ops = s0 at hT hacc ⊢
+  have h1 := getChain_leaves_wanted hT i hK
+  generalize (getChain s0 i K).1 = s1 at h1 hacc ⊢
+  have h2 : (W (feeds s1 fs₁) i).peek K = some .placeholder ∨ (W (feeds s1 fs₁) i).peek K = some (.chain K) := by
+    rcases feeds_keep s1 fs₁ i K with e | ⟨_, e⟩
+    · rw [e]; exact h1
+    · right; exact e
+  generalize feeds s1 fs₁ = s2 at h2 hacc ⊢
+  have h3 : (W (feed s2 p now (some msg)).1 i).peek K = some (.chain K) := by
+    rcases h2 with h2 | h2
+    · subst hinst; exact feed_fills s2 p now msg hacc K hpre h2
+    · rcases feed_keeps s2 p now (some msg) i K with e | ⟨e, _⟩
+      · rw [e]; exact h2
+      · rw [h2] at e; cases e
+  generalize (feed s2 p now (some msg)).1 = s3 at h3 ⊢
+  have h4 : (W (feeds s3 fs₂) i).peek K = some (.chain K) := by
+    rcases feeds_keep s3 fs₂ i K with e | ⟨e, _⟩
+    · rw [e]; exact h3
+    · rw [h3] at e; cases e
+  exact getChain_of_wanted _ i hK h4
+
+
+/-! ## a fresh admission -/
+
+theorem onAdmittedPrefix_none_w (t : Tracker) (i : Nat) (p : Key) (h : t.w i p = none) :
+    (onAdmittedPrefix i t p).w = t.w := by
+  rw [onAdmittedPrefix_none t i p h]; rfl
+
+theorem onAdmittedPrefix_none_d (t : Tracker) (i : Nat) (p q : Key) (h : t.w i p = none) :
+    (onAdmittedPrefix i t p).d i q = if q = p then some ((t.d i p).getD []) else (t.d i q).map (ins p) := by
+  rw [onAdmittedPrefix_none t i p h]
+  simp only [setDelivered_d, setD_d_same, touchD_d_same]
+  by_cases hq : q = p <;> simp [hq]
+
+theorem admFold_w (i : Nat) (ps : List Key) (t : Tracker) (h : ∀ p ∈ ps, t.w i p = none) :
+    (ps.foldl (onAdmittedPrefix i) t).w = t.w := by
+  induction ps generalizing t with
+  | nil => rfl
+  | cons p r ih =>
+    simp only [List.foldl_cons]
+    have hp := h p (List.mem_cons_self ..)
+    have hw := onAdmittedPrefix_none_w t i p hp
+    rw [ih _ (fun x hx => by rw [hw]; exact h x (List.mem_cons_of_mem _ hx)), hw]
+
+theorem admFold_d_grow (i : Nat) (q : Key) (r : List Key) (t : Tracker) (ds0 : List Key)
+    (h : ∀ p ∈ r, t.w i p = none) (hd : t.d i q = some ds0) :
+    ∃ ds, (r.foldl (onAdmittedPrefix i) t).d i q = some ds ∧ ds.length ≤ ds0.length + r.length := by
+  induction r generalizing t ds0 with
+  | nil => exact ⟨ds0, hd, by simp⟩
+  | cons p r ih =>
+    simp only [List.foldl_cons]
+    have hp := h p (List.mem_cons_self ..)
+    have hw := onAdmittedPrefix_none_w t i p hp
+    have hr : ∀ x ∈ r, (onAdmittedPrefix i t p).w i x = none := fun x hx => by
+      rw [hw]; exact h x (List.mem_cons_of_mem _ hx)
+    by_cases hq : q = p
+    · subst hq
+      have hd' : (onAdmittedPrefix i t q).d i q = some ds0 := by
+        rw [onAdmittedPrefix_none_d t i q q hp]; simp [hd]
+      obtain ⟨ds, e, hl⟩ := ih _ ds0 hr hd'
+      exact ⟨ds, e, by simp only [List.length_cons]; omega⟩
+    · have hd' : (onAdmittedPrefix i t p).d i q = some (ins p ds0) := by
+        rw [onAdmittedPrefix_none_d t i p q hp]; simp [hq, hd]
+      obtain ⟨ds, e, hl⟩ := ih _ (ins p ds0) hr hd'
+      refine ⟨ds, e, ?_⟩
+      have : (ins p ds0).length ≤ ds0.length + 1 := by
+        show (insNew p ds0).length ≤ _
+        unfold insNew; by_cases hm : p ∈ ds0 <;> simp [hm]
+      simp only [List.length_cons]; omega
+
+theorem admFold_d_fresh (i : Nat) (q : Key) (ps : List Key) (t : Tracker)
+    (h : ∀ p ∈ ps, t.w i p = none) (hq : q ∈ ps) (hd : t.d i q = none) :
+    ∃ ds, (ps.foldl (onAdmittedPrefix i) t).d i q = some ds ∧ ds.length + 1 ≤ ps.length := by
+  induction ps generalizing t with
+  | nil => simp at hq
+  | cons p r ih =>
+    simp only [List.foldl_cons]
+    have hp := h p (List.mem_cons_self ..)
+    have hw := onAdmittedPrefix_none_w t i p hp
+    have hr : ∀ x ∈ r, (onAdmittedPrefix i t p).w i x = none := fun x hx => by
+      rw [hw]; exact h x (List.mem_cons_of_mem _ hx)
+    by_cases hqp : q = p
+    · subst hqp
+      have hd' : (onAdmittedPrefix i t q).d i q = some [] := by
+        rw [onAdmittedPrefix_none_d t i q q hp]; simp [hd]
+      obtain ⟨ds, e, hl⟩ := admFold_d_grow i q r _ [] hr hd'
+      exact ⟨ds, e, by simp only [List.length_cons, List.length_nil] at hl ⊢; omega⟩
+    · have hq' : q ∈ r := by
+        rcases List.mem_cons.mp hq with e | e
+        · exact absurd e hqp
+        · exact e
+      have hd' : (onAdmittedPrefix i t p).d i q = none := by
+        rw [onAdmittedPrefix_none_d t i p q hp]; simp [hqp, hd]
+      obtain ⟨ds, e, hl⟩ := ih _ hr hq' hd'
+      exact ⟨ds, e, by simp only [List.length_cons]; omega⟩
+
+theorem length_prefixes (c : Chain) : (prefixes c).length = c.length := by
+  simp [prefixes]
+
+theorem step_opts (s : State) (op : Op) : (step s op).1.opts = s.opts := by
+  cases op with
+  | get i k => exact getChain_opts s i k
+  | feed p now m =>
+    rcases feed_cases s p now m with ⟨msg, _, _, e⟩ | ⟨e1, _⟩
+    · simp only [step, e]; rfl
+    · simp only [step, e1]
+  | bcast i c => exact (cacheAsWanted_local s i c).1
+  | prune n => rfl
+
+theorem run_opts (s : State) (ops : List Op) : (run s ops).opts = s.opts := by
+  induction ops generalizing s with
+  | nil => rfl
+  | cons o os ih => exact (ih _).trans (step_opts s o)
+
+theorem history_opts (o : Opts) (ops : List Op) : (history o ops).1.opts = o := by
+  rw [history_state, run_opts]; rfl
+
+/-- A chain admitted for an instance at which none of its prefixes has been seen or asked for since
+the last prune, and no longer than the discovered capacity: the chain and every prefix is
+retrievable by key right away. -/
+theorem fresh_admission (o : Opts) (hw : 0 < o.maxWanted) (hd : 0 < o.maxDiscovered) (ops : List Op)
+    (p : Progress) (now : Int) (msg : Msg)
+    (hacc : (feed (history o ops).1 p now (some msg)).2 = .accept)
+    (hfresh : ∀ q ∈ prefixes (chainIds msg.chain),
+      (history o ops).2.w msg.inst q = none ∧ (history o ops).2.d msg.inst q = none)
+    (hlen : (chainIds msg.chain).length ≤ o.maxDiscovered) :
+    ∀ q ∈ prefixes (chainIds msg.chain),
+      (getChain (feed (history o ops).1 p now (some msg)).1 msg.inst q).2.1 = some q := by
+  intro q hq
+  have hT := history_tinv o hw hd ops
+  have hop := history_opts o ops
+  generalize history o ops = H at hT hacc hfresh hop ⊢
+  obtain ⟨s, t⟩ := H
+  simp only at hT hacc hfresh hop ⊢
+  have hs' : (feed s p now (some msg)).1 = cacheAsDiscovered s msg.inst (chainIds msg.chain) := by
+    rcases feed_cases s p now (some msg) with ⟨msg', hm, _, e⟩ | ⟨_, e2⟩
+    · cases hm; rw [e]
+    · exact absurd (e2 hacc) (by simp)
+  rw [hs']
+  have hT' := tinv_cacheAsDiscovered msg.inst (chainIds msg.chain) hT
+  have hwn : ∀ x ∈ prefixes (chainIds msg.chain), t.w msg.inst x = none := fun x hx => (hfresh x hx).1
+  have hw' := admFold_w msg.inst _ t hwn
+  obtain ⟨ds, hds, hl⟩ := admFold_d_fresh msg.inst q _ t hwn hq (hfresh q hq).2
+  have hcap : ((prefixes (chainIds msg.chain)).foldl (onAdmittedPrefix msg.inst) t).capD = o.maxDiscovered := by
+    rw [hT'.capD, (cacheAsDiscovered_local s msg.inst (chainIds msg.chain)).1, hop]
+  have hqne : q ≠ [] := prefixes_ne_nil hq
+  have hmust : mustFindD ((prefixes (chainIds msg.chain)).foldl (onAdmittedPrefix msg.inst) t) msg.inst q = true := by
+    unfold mustFindD
+    rw [hw', (hfresh q hq).1, hds, hcap]
+    rw [length_prefixes] at hl
+    simp only [decide_eq_true_eq]
+    omega
+  have hj := judge_ok hT' msg.inst q
+  cases hr : (getChain (cacheAsDiscovered s msg.inst (chainIds msg.chain)) msg.inst q).2.1 with
+  | none =>
+    rw [hr] at hj
+    by_cases hW : mustFindW ((prefixes (chainIds msg.chain)).foldl (onAdmittedPrefix msg.inst) t) msg.inst q = true
+    · simp [judgeLookup, hqne, hW] at hj
+    · simp [judgeLookup, hqne, hW, hmust] at hj
+  | some c =>
+    rw [hr] at hj
+    unfold judgeLookup at hj
+    by_cases hck : c = q
+    · rw [hck]
+    · simp [hck] at hj
+
+
+/-! ## witness data for `Props/C18.lean` -/
+
+def k12 : Key := [1, 2]
+/-- a tipset that passes `TipSet.Validate` -/
+def okTip (id : Nat) (e : Int) : TipD := ⟨id, e, 5, 38⟩
+/-- ask for `[1,2]`, receive it, receive one unsolicited chain (instance 6 current, no input yet) -/
+def s6ops : List Op :=
+  [ .get 6 k12,
+    .feed ⟨6, none⟩ 1000 (some ⟨6, [okTip 1 1, okTip 2 2], 1000⟩),
+    .feed ⟨6, none⟩ 1000 (some ⟨6, [okTip 1 1, okTip 3 3], 1000⟩) ]
+
 end F3.ChainX
